@@ -364,6 +364,16 @@ class BodyPartReader:
 
         size: chunk size
         """
+        chunk = await self._read_chunk(size)
+        # A transfer-encoded part never hands out a partial group (base64
+        # quartet, quoted-printable escape): when the transport delivered
+        # less than one group, keep reading until one is complete or the
+        # part ends.
+        while not chunk and self._b64_carry and not self._at_eof:
+            chunk = await self._read_chunk(size)
+        return chunk
+
+    async def _read_chunk(self, size: int) -> bytes:
         if self._at_eof:
             return b""
         carry = self._b64_carry
@@ -383,6 +393,8 @@ class BodyPartReader:
         encoding = self.headers.get(CONTENT_TRANSFER_ENCODING)
         if encoding and encoding.lower() == "base64":
             chunk = self._align_base64_chunk(chunk, len(carry) + want)
+        elif encoding and encoding.lower() == "quoted-printable":
+            chunk = self._align_qp_chunk(chunk)
 
         if self._read_bytes == self._length:
             self._at_eof = True
@@ -411,11 +423,30 @@ class BodyPartReader:
             if chunk[cut] in _BASE64_CHARS:
                 left -= 1
         if not cut:
+            if len(chunk) < size:
+                # The transport delivered less than one quartet: carry it and
+                # let read_chunk() read on.
+                self._b64_carry = chunk + self._b64_carry
+                return b""
             # No whole quartet to hand back, and carrying the lot would make
             # no progress: the caller asked for this many bytes, and a part
             # that holds no quartet within them holds none to give.
             return chunk
 
+        self._b64_carry = chunk[cut:] + self._b64_carry
+        return chunk[:cut]
+
+    def _align_qp_chunk(self, chunk: bytes) -> bytes:
+        # quoted-printable is decoded chunk by chunk as well, so a chunk must
+        # not end inside an escape ("=", "=X") or a soft line break ("=\r").
+        at_end = self._at_eof or (
+            self._length is not None and self._read_bytes >= self._length
+        )
+        if at_end:
+            return chunk
+        cut = chunk.rfind(b"=", max(0, len(chunk) - 2))
+        if cut < 0:
+            return chunk
         self._b64_carry = chunk[cut:] + self._b64_carry
         return chunk[:cut]
 
